@@ -62,3 +62,19 @@ def run (n : Nat) : Bufs σ ρ → List (Op σ ρ) → List (σ × List ρ)
 
 end
 end Counting
+
+/-! ### key derivation as coded (`getKey`, `extractSessionCompositeKey`)
+
+The window looks a GROUP BY column up as a top-level entry of the row.  A *qualified* column —
+a dotted path such as `m.location` (joined table column, stored as `row["m"]["location"]`) or
+`o.loc` (nested field) — is never found there and contributes the NULL part, whereas the
+aggregator resolves the path and groups by the real value.  `qualified` says, per GROUP BY column,
+whether it is such a path. -/
+namespace Counting
+
+/-- the tuple the window key is built from, given the tuple of real group values -/
+def windowTuple {ν : Type} (null : ν) : List Bool → List ν → List ν
+  | q :: qs, v :: vs => (if q then null else v) :: windowTuple null qs vs
+  | _, vs => vs
+
+end Counting
